@@ -608,4 +608,35 @@ def run(ctx):
                     run.instance(R7, {"fn": pp.short(fid), "cast": what, "site": s["sp"].split(":")[1], "bounded": guarded}, held=guarded)
                     if not guarded:
                         run.finding(Finding(R7, fid, "length prefix truncated: %s without a bound check" % what, site=":".join(s["sp"].split(":")[:2])))
+    # no narrowing of a field value on its way into the binary form (a u64 slate field written as u32 would lose its
+    # high bits while JSON keeps them)
+    R8 = "C08.R8"
+    run.rule(R8, "no narrowing: a slate / slatepack field value is written with its full width (no `as u8/u16/u32` of a wider field value)", floor=1)
+    W_ORDER = {"u8": 1, "u16": 2, "u32": 4, "u64": 8, "usize": 8, "i32": 4, "i64": 8, "u128": 16}
+    n_casts = 0
+    for fid, f in sorted(db.fns.items()):
+        if non_production(fid) or f.impl_trait != "grin_core::ser::Writeable":
+            continue
+        if not any(fid.startswith("<" + p) for p in (V4B, SPT)):
+            continue
+        for b, bb in enumerate(f.bbs):
+            for st in bb["s"]:
+                if st["k"] == "a" and st["r"]["k"] == "cast" and st["r"]["ck"] == "IntToInt":
+                    dst = st["r"]["ty"]
+                    sp_ = vf.op_place(st["r"]["o"])
+                    src = f.locals[sp_[0]]["ty"].replace("&", "") if sp_ and not sp_[1] else None
+                    if src not in W_ORDER or dst not in W_ORDER:
+                        continue
+                    n_casts += 1
+                    pr = vf.producers(f, st["r"]["o"])
+                    is_len = any(y[0] == "call" and (y[1].endswith("::len") or y[1].endswith("encoded_len") or y[1].endswith("opt_fields_len")) for y in pr)
+                    if is_len:
+                        continue  # length prefixes are R7's subject
+                    narrowing = W_ORDER[dst] < W_ORDER[src]
+                    from_field = any(y[0] == "field" and y[1].startswith("grin_wallet") for y in pr) or any(y[0] == "call" for y in pr)
+                    held = not (narrowing and from_field)
+                    run.instance(R8, {"fn": pp.short(fid), "cast": "%s as %s" % (src, dst), "site": st["sp"].split(":")[1]}, held=held)
+                    if not held:
+                        run.finding(Finding(R8, fid, "a %s field value is narrowed to %s before it is written" % (src, dst), site=":".join(st["sp"].split(":")[:2])))
+    run.instance(R8, {"obligation": "integer casts in the binary writers examined", "casts": n_casts}, held=True)
     run.not_decided += ["equality of decoded and original values", "age / bech32 / base58 correctness", "anything value-level (boundary integers etc.)"]
